@@ -27,7 +27,7 @@ def run_real(prog, clock, end=progmc.END, driver="start", raw=()):
             sim.start()
         elif driver == "steps":
             # single steps until nothing executable is left, then start
-            for _ in range(60):
+            for _ in range(400):
                 el = sim.eventlist()
                 if el.is_empty() or el.peek_first().time > base + T(end):
                     break
@@ -208,6 +208,84 @@ def wide_worker(task):
                 viols=[v + (cnt[v[0]],) for v in best.values()])
 
 
+def decimal_grid(quick):
+    g = [i / 10.0 for i in range(1, 41)]
+    g += [i / 3.0 for i in range(1, 12)] + [i / 7.0 for i in range(1, 28)]
+    if not quick:
+        g += [i / 100.0 for i in range(1, 400, 3)]
+    return sorted(set(x for x in g if 0 < x <= 4.0))
+
+
+def decimal_worker(task):
+    """times that are not dyadic rationals: an event requested for time b
+    from a handler running at time a must sit at exactly b (ties with the
+    events requested for b from elsewhere, an event at the end time runs);
+    a relative request for delay d sits at exactly a + d"""
+    clock, chunk, nchunks, quick = task
+    coopsched.install()
+    grid = decimal_grid(quick)
+    n = 0
+    best, cnt = {}, {}
+    idx = 0
+    for a in grid:
+        for b in grid:
+            if not a < b:
+                continue
+            idx += 1
+            if idx % nchunks != chunk:
+                continue
+            d = b - a
+            progs = [("at", {-1: [("s", "at", a, 5, 0), ("s", "at", b, 5, 1)],
+                             0: [("s", "at", b, 1, 2), ("s", "at", b, 10, 3)],
+                             1: [], 2: [], 3: []})]
+            if a + d <= 4.0:
+                progs.append(("rel", {
+                    -1: [("s", "at", a, 5, 0), ("s", "at", a + d, 5, 1)],
+                    0: [("s", "rel", d, 1, 2), ("s", "rel", d, 10, 3)],
+                    1: [], 2: [], 3: []}))
+            for kind, prog in progs:
+                n += 1
+                bad, got = judge(prog, clock)
+                for b_ in bad[:1]:
+                    sig = "C02:decimal-%s:%s" % (kind, b_[0])
+                    cnt[sig] = cnt.get(sig, 0) + 1
+                    rank = idx
+                    if sig not in best or rank < best[sig][3]:
+                        rep = {"clock": clock, "end": progmc.END,
+                               "program": progmc.prog_to_json(prog)}
+                        best[sig] = (sig, "%s clock, handler at %r asks for "
+                                     "%s %r: %s" % (clock, a, kind,
+                                                    b if kind == "at" else d,
+                                                    b_), rep, rank)
+    return dict(clock=clock, n=n, nontrivial=n, sample=None, decimal=True,
+                viols=[v + (cnt[v[0]],) for v in best.values()])
+
+
+def burst_worker(task):
+    """k events at one time / k distinct times in scrambled order, k far
+    beyond the handler trees: the whole order against the reference, under
+    start, single steps and the bounded drivers"""
+    clock, k = task
+    coopsched.install()
+    n = 0
+    best, cnt = {}, {}
+    for name, prog, end in progmc.burst_programs(k):
+        for drv in ("start", "steps", "uptoi-end", "upto-beyond"):
+            n += 1
+            bad, got = judge(prog, clock, end, drv)
+            for b_ in bad[:1]:
+                sig = "C02:burst:%s:%s" % (name, b_[0])
+                cnt[sig] = cnt.get(sig, 0) + 1
+                if sig not in best or k < best[sig][3]:
+                    rep = {"clock": clock, "end": end,
+                           "program": progmc.prog_to_json(prog)}
+                    best[sig] = (sig, "%s of %d events on the %s clock "
+                                 "(driver %s): %s" % (name, k, clock, drv,
+                                                      str(b_)[:400]), rep, k)
+    return dict(clock=clock, n=n, nontrivial=n, sample=None, burst=True,
+                viols=[v + (cnt[v[0]],) for v in best.values()])
+
+
 def determinism_selfcheck():
     """replay one program twice and demand identical observations"""
     coopsched.install()
@@ -249,12 +327,23 @@ def run(ctx):
               for i in range(common.NCPU)]
     per = {}
     total = nontriv = 0
+    dch = common.NCPU
+    dtasks = [(c, i, dch, quick) for c in ("float", "duration")
+              for i in range(dch)]
+    ks = [1, 2, 3, 5, 8, 9, 12, 16, 17, 24, 25, 26, 32, 33, 34, 40] if quick \
+        else list(range(1, 49)) + [64, 65]
+    btasks = [(c, k) for k in reversed(ks)
+              for c in ("float", "int", "duration")]
     results = itertools.chain(common.pimap(worker, tasks),
-                              common.pimap(wide_worker, wtasks))
+                              common.pimap(wide_worker, wtasks),
+                              common.pimap(decimal_worker, dtasks),
+                              common.pimap(burst_worker, btasks))
     for r in results:
         total += r["n"]
         nontriv += r["nontrivial"]
         key = r["clock"] + (" (wide cancel programs)" if r.get("wide")
+                            else " (decimal times)" if r.get("decimal")
+                            else " (bursts, ladders)" if r.get("burst")
                             else "")
         per[key] = per.get(key, 0) + r["n"]
         if r["sample"]:
@@ -276,6 +365,12 @@ def run(ctx):
         "Plus wide programs: construct_model schedules M distinct-time events "
         "(all permutations for M<=6/7, the multiplicative family beyond, M up "
         "to 15/23) and the earliest event cancels each target j. "
+        "Plus decimal times: for every pair a<b of a grid of tenths, thirds "
+        "and sevenths in (0,4] a handler at a asks for absolute time b and "
+        "for the delay b-a, competing with events requested for the same "
+        "time from elsewhere (exact ties, the end time included). "
+        "Plus bursts of k<=40 (thorough 65) simultaneous events (batch, "
+        "chain, fan, strata) and ladders of k distinct times. "
         "Programs are distinct by construction; non-trivial = >=2 executed "
         "events and (time tie or zero delay or cancel or illegal request)"
         % (N, " and every single illegal request (past, negative delay, NaN "
